@@ -171,7 +171,11 @@ func randomProgram(r *rand.Rand) []Op {
 				prog = append(prog, Op{Op: "WriteCompressed", Ns: []int{a, b}, Vs: []string{v, val()}})
 			}
 		case x == 10 && !inStream && r.Intn(2) == 0:
-			prog = append(prog, Op{Op: "OpenStreamBad", N: num(), G: 0, Why: []string{"badLength", "filterVersion"}[r.Intn(2)]})
+			if r.Intn(3) == 0 {
+				prog = append(prog, Op{Op: "PutBad", N: num()})
+			} else {
+				prog = append(prog, Op{Op: "OpenStreamBad", N: num(), G: 0, Why: []string{"badLength", "filterVersion", "directStream"}[r.Intn(3)]})
+			}
 		case x == 10:
 			prog = append(prog, Op{Op: "WriteCompressedBad", Why: []string{"streamMember", "refMember", "genMember"}[r.Intn(3)]})
 		default:
